@@ -62,6 +62,27 @@ def days_in_month(y, m):
               If(Eq(m, 2), If(leap, 29, 28), 30))
 
 
+def is_pure(e):
+    """expression whose evaluation cannot raise or branch: names, constants, comparisons and boolean connectives of
+    those, ord(name), integer arithmetic (+ - *) - evaluated as a value instead of by forking"""
+    if isinstance(e, (ast.Name, ast.Constant)):
+        return True
+    if isinstance(e, ast.Compare):
+        return all(isinstance(op, (ast.Eq, ast.NotEq, ast.Lt, ast.LtE, ast.Gt, ast.GtE)) for op in e.ops) and \
+            is_pure(e.left) and all(is_pure(c) for c in e.comparators)
+    if isinstance(e, ast.BoolOp):
+        return all(is_pure(v) for v in e.values)
+    if isinstance(e, ast.UnaryOp) and isinstance(e.op, (ast.Not, ast.USub)):
+        return is_pure(e.operand)
+    if isinstance(e, ast.BinOp) and isinstance(e.op, (ast.Add, ast.Sub, ast.Mult)):
+        return is_pure(e.left) and is_pure(e.right)
+    if isinstance(e, ast.Call) and isinstance(e.func, ast.Name) and e.func.id == 'ord' and len(e.args) == 1 and isinstance(e.args[0], ast.Name):
+        return True
+    if isinstance(e, ast.IfExp):
+        return is_pure(e.test) and is_pure(e.body) and is_pure(e.orelse)
+    return False
+
+
 class Interp(StrOps, AbsOps, Methods):
     def __init__(self, ctx):
         self.ctx = ctx
@@ -402,7 +423,7 @@ class Interp(StrOps, AbsOps, Methods):
 
     def wrap(self, v, module=None, name=None):
         if isinstance(v, types.FunctionType):
-            if (v.__module__ or '').startswith('stdnum') or getattr(v, '__module__', '') == front.WSGI_NAME:
+            if (v.__module__ or '').startswith(('stdnum', 'contracts.')) or getattr(v, '__module__', '') == front.WSGI_NAME:
                 return front.func_of(v, Func)
             return v
         if isinstance(v, (dict, list)) and module is not None:
@@ -488,6 +509,13 @@ class Interp(StrOps, AbsOps, Methods):
             else:
                 sl = self.eval(e.slice, env, module)
             return self.subscript(v, sl)
+        if t is ast.BoolOp and all(isinstance(x, (ast.Compare, ast.BoolOp)) or (isinstance(x, ast.UnaryOp) and isinstance(x.op, ast.Not)) for x in e.values) \
+                and is_pure(e):
+            try:
+                vals = [self.truth(self.eval(x, env, module)) for x in e.values]
+                return And(*vals) if isinstance(e.op, ast.And) else Or(*vals)
+            except Raise:
+                pass        # fall back to short-circuit evaluation (an operand compares unlike types)
         if t is ast.BoolOp:
             isand = isinstance(e.op, ast.And)
             v = None
@@ -520,6 +548,17 @@ class Interp(StrOps, AbsOps, Methods):
                 return ~v
             raise Unsupported('unary op')
         if t is ast.IfExp:
+            if is_pure(e):
+                c = self.truth(self.eval(e.test, env, module))
+                if not isinstance(c, bool):
+                    try:
+                        a = self.eval(e.body, env, module)
+                        b = self.eval(e.orelse, env, module)
+                        if (isinstance(a, int) or (is_sym(a) and not is_cond(a))) and (isinstance(b, int) or (is_sym(b) and not is_cond(b))) \
+                                and not isinstance(a, bool) and not isinstance(b, bool):
+                            return If(c, a, b)
+                    except Raise:
+                        pass
             return self.eval(e.body if self.tobool(self.eval(e.test, env, module)) else e.orelse, env, module)
         if t is ast.Compare:
             left = self.eval(e.left, env, module)
@@ -527,7 +566,9 @@ class Interp(StrOps, AbsOps, Methods):
             for op, r in zip(e.ops, e.comparators):
                 right = self.eval(r, env, module)
                 c = self.compare(op, left, right)
-                if len(e.ops) > 1:
+                if len(e.ops) > 1 and is_pure(e):
+                    res = And(res, c)
+                elif len(e.ops) > 1:
                     # chained comparison short-circuits
                     if not self.ctx.branch(c) if not isinstance(c, bool) else not c:
                         return False
